@@ -8,8 +8,12 @@ package connectconformance
 
 import (
 	"encoding/json"
+	"fmt"
+	"net"
+	"os"
 	"sort"
 	"strings"
+	"sync/atomic"
 	"testing"
 	"time"
 
@@ -22,9 +26,15 @@ type c05RefScn struct {
 	Config string   `json:"config"`
 	Run    []string `json:"run"`
 	Skip   []string `json:"skip"`
+	// FixedPort: run with --port (a port that is free right now) and --max-servers 1, as the command line does
+	// when a port is given: the servers of both kinds (reference and grpc-go) take turns on the one port, so a
+	// second server alive at the same time cannot bind and its permutations become setup failures
+	FixedPort bool `json:"fixedPort"`
 	// "@unmarked" / "@marked:<marker>" in Run or Skip is replaced by the first (sorted) full name of
 	// that kind under Basic/
 }
+
+var c05PortSeq atomic.Int64
 
 type c05RefOut struct {
 	Scn      c05RefScn `json:"scn"`
@@ -32,13 +42,15 @@ type c05RefOut struct {
 	Run      []string  `json:"run"`
 	Skip     []string  `json:"skip"`
 	Outcomes []string  `json:"outcomes"`
+	Setup    []string  `json:"setup"` // permutations recorded as setup failures
+	Port     int       `json:"port,omitempty"`
 	Err      string    `json:"err,omitempty"`
 	Hang     bool      `json:"hang,omitempty"`
 }
 
 func c05RefOne(scn c05RefScn) (out c05RefOut) {
 	out.Scn = scn
-	out.Names, out.Run, out.Skip, out.Outcomes = []string{}, []string{}, []string{}, []string{}
+	out.Names, out.Run, out.Skip, out.Outcomes, out.Setup = []string{}, []string{}, []string{}, []string{}, []string{}
 	configCases, err := parseConfig("config.yaml", []byte(scn.Config))
 	if err != nil {
 		out.Err = "harness: config: " + err.Error()
@@ -89,6 +101,21 @@ func c05RefOne(scn c05RefScn) (out c05RefOut) {
 	}
 	out.Run, out.Skip = resolve(scn.Run), resolve(scn.Skip)
 	flags := &Flags{Verbose: true, MaxServers: 4, Parallelism: 8, ServerBind: "127.0.0.1"}
+	if scn.FixedPort {
+		// below the kernel's ephemeral range, so that no client socket of a concurrent run can be given it
+		for try := 0; try < 200 && out.Port == 0; try++ {
+			p := 21000 + (os.Getpid()*131+int(c05PortSeq.Add(1))*17+try)%1000
+			if l, err := net.Listen("tcp", fmt.Sprintf("127.0.0.1:%d", p)); err == nil {
+				_ = l.Close()
+				out.Port = p
+			}
+		}
+		if out.Port == 0 {
+			out.Err = "harness: no free port"
+			return out
+		}
+		flags.MaxServers, flags.ServerPort = 1, uint(out.Port)
+	}
 	pr := &c05Printer{}
 	type ret struct {
 		res *testResults
@@ -111,9 +138,13 @@ func c05RefOne(scn c05RefScn) (out c05RefOut) {
 	}
 	if r.res != nil {
 		r.res.mu.Lock()
-		for name := range r.res.outcomes {
+		for name, o := range r.res.outcomes {
 			out.Outcomes = append(out.Outcomes, name)
+			if o.setupError {
+				out.Setup = append(out.Setup, name)
+			}
 		}
+		sort.Strings(out.Setup)
 		r.res.mu.Unlock()
 		sort.Strings(out.Outcomes)
 	}
